@@ -64,6 +64,7 @@ func checkC04(ci interface{}, st *Stats) error {
 	}
 	run := func(evaluate bool) (node parsley.Node, val interface{}, err error, berr error) {
 		probe := NewProbe()
+		probe.InLen = len(in)
 		b := Build(g, BuildOpts{MemoRules: memo, Probe: probe, Interp: concatInterp(c.Interp == 1)})
 		ctx, _ := NewCtx(in)
 		defer func() {
@@ -134,11 +135,12 @@ func checkC04(ci interface{}, st *Stats) error {
 	if node.Pos() != 1 || int(node.ReaderPos()) != 1+len(in) {
 		return fmt.Errorf("root spans %d..%d, want 0..%d", int(node.Pos())-1, int(node.ReaderPos())-1, len(in))
 	}
-	rn, ok := node.(*ast.NonTerminalNode)
-	if !ok || len(rn.Children()) != 2 || rn.Children()[1].Token() != "EOF" {
-		return fmt.Errorf("root is not the Sentence sequence [result EOF]: %s", RenderResult(node, 1))
+	// Sentence returns the sequence [result, EOF]; a root that is the result itself would satisfy
+	// the property just as well
+	child := node
+	if rn, ok := node.(*ast.NonTerminalNode); ok && len(rn.Children()) == 2 && rn.Children()[1].Token() == "EOF" {
+		child = rn.Children()[0]
 	}
-	child := rn.Children()[0]
 	if !NewValidator(ref, 1).Valid(g.Rules[0], child, 0) {
 		return fmt.Errorf("the returned tree is no derivation of N0: %s", RenderNode(child, 1))
 	}
